@@ -758,9 +758,7 @@ static int load_touchstone1(ts_parser_state_t *tpsp)
 	tpsp->tps_ports = 2;
 	if (vnadata_init(vdp, tpsp->tps_parameter_type,
 		    2, 2, /*frequencies*/0) == -1) {
-	    _vnadata_error(vdip, VNAERR_SYSTEM,
-		    "realloc: %s", strerror(errno));
-	    return -1;
+	    return -1;		/* vnadata_init has reported the error */
 	}
 	(void)vnadata_set_all_z0(vdp, tpsp->tps_z0);
 	goto parse_noise_data;
@@ -785,9 +783,7 @@ static int load_touchstone1(ts_parser_state_t *tpsp)
     }
     if (vnadata_init(vdp, tpsp->tps_parameter_type,
 		tpsp->tps_ports, tpsp->tps_ports, /*frequencies*/0) == -1) {
-	_vnadata_error(vdip, VNAERR_SYSTEM,
-		"realloc: %s", strerror(errno));
-	return -1;
+	return -1;		/* vnadata_init has reported the error */
     }
     (void)vnadata_set_all_z0(vdp, tpsp->tps_z0);
 
@@ -818,9 +814,7 @@ static int load_touchstone1(ts_parser_state_t *tpsp)
 	    }
 	    if (vnadata_add_frequency(vdp, tpsp->tps_frequency_multiplier *
 			tpsp->tps_value_vector[0]) == -1) {
-		_vnadata_error(vdip, VNAERR_SYSTEM,
-			"realloc: %s", strerror(errno));
-		return -1;
+		return -1;	/* vnadata_add_frequency has reported */
 	    }
 
 	    /*
@@ -875,9 +869,7 @@ static int load_touchstone1(ts_parser_state_t *tpsp)
 		    if (vnadata_resize(vdp, tpsp->tps_parameter_type,
 				tpsp->tps_ports, tpsp->tps_ports,
 				findex + 1) == -1) {
-			_vnadata_error(vdip, VNAERR_SYSTEM,
-				"realloc: %s", strerror(errno));
-			return -1;
+			return -1;	/* vnadata_resize has reported */
 		    }
 		    (void)vnadata_set_all_z0(vdp, tpsp->tps_z0);
 		    row = 1;
@@ -917,9 +909,7 @@ static int load_touchstone1(ts_parser_state_t *tpsp)
 	    }
 	    if (vnadata_add_frequency(vdp, tpsp->tps_frequency_multiplier *
 			tpsp->tps_value_vector[0]) == -1) {
-		_vnadata_error(vdip, VNAERR_SYSTEM,
-			"realloc: %s", strerror(errno));
-		return -1;
+		return -1;	/* vnadata_add_frequency has reported */
 	    }
 	    for (column = 0; column < tpsp->tps_ports; ++column) {
 		int idx = 1 + 2 * column;
@@ -1461,9 +1451,7 @@ int _vnadata_load_touchstone(vnadata_internal_t *vdip, FILE *fp,
 	}
 	if (_vnadata_set_simple_format(vdip, tps.tps_parameter_type,
 		    format_type) == -1) {
-	    _vnadata_error(vdip, VNAERR_SYSTEM,
-		    "malloc: %s", strerror(errno));
-	    goto out;
+	    goto out;		/* the error has been reported */
 	}
     }
 
@@ -1529,9 +1517,7 @@ int _vnadata_load_touchstone(vnadata_internal_t *vdip, FILE *fp,
      */
     if (vnadata_init(vdp, tps.tps_parameter_type, tps.tps_ports,
 		tps.tps_ports, number_of_frequencies) == -1) {
-	_vnadata_error(vdip, VNAERR_SYSTEM,
-		"realloc: %s", strerror(errno));
-	goto out;
+	goto out;		/* vnadata_init has reported the error */
     }
 
     /*
